@@ -1,6 +1,6 @@
 (* C12 — validate and predict_batch are faithful aggregations of predict. *)
 From NV Require Import Prelude Num NumF32 Random Tensor Activation Objective Optimizer Layers Network Learn.
-From NV.Theory Require Import Monad Chunks Par Training.
+From NV.Theory Require Import Monad Chunks Par Training SetAct.
 
 (* predict_batch = predict of each input, in input order, for any number of inputs and any
    ordered parallel map (the 64-element chunking is invisible in the result). *)
@@ -31,3 +31,34 @@ Theorem C12_predict_is_last_activation :
     predict n x = do f <- forward n x; match last_opt (fw_post f) with Some t => Ok t | None => Panic P_unwrap end.
 Proof. exact predict_is_last_activation. Qed.
 Print Assumptions C12_predict_is_last_activation.
+
+(* The per-sample accuracy rule is read from the OUTPUT layer at every call: after set_activation on the
+   output layer it is arg-max agreement exactly when the NEW activation is soft-max, the tolerance band
+   otherwise - whatever activation the layer was created with. *)
+Theorem C12_accuracy_rule_follows_current_output_activation :
+  forall (N : Num) (n n' : network N) (i : nat) (a : activation) (d : dense N) (tol : T N) (p t : tensor N),
+    set_activation n i a = Ok n' -> length (n_layers n) = S i ->
+    nth_error (n_layers n) i = Some (LDense d) ->
+    accuracy n' tol p t =
+    match a with
+    | Softmax => do x <- argmax t; do y <- argmax p; Ok (if x =? y then one else zero)
+    | _ => do tf <- get_flat t; do pf <- get_flat p;
+           if length tf =? 1 then
+             do p0 <- nth_res pf 0; do t0 <- nth_res tf 0; Ok (if abs_lt N p0 t0 tol then one else zero)
+           else Ok (ndiv N (fsum (map2 (fun ti pi_ => if abs_lt N ti pi_ tol then one else zero) tf pf))
+                          (of_nat (length tf)))
+    end.
+Proof. exact set_activation_accuracy. Qed.
+Print Assumptions C12_accuracy_rule_follows_current_output_activation.
+
+(* set_activation changes the activation of the addressed layer and nothing else *)
+Theorem C12_set_activation_changes_one_activation_only :
+  forall (N : Num) (n n' : network N) (i : nat) (a : activation),
+    set_activation n i a = Ok n' ->
+    exists l l', nth_error (n_layers n) i = Some l /\ with_act l a = Some l' /\
+                 n_layers n' = set_nth (n_layers n) i l' /\
+                 n_loopbacks n' = n_loopbacks n /\ n_connect n' = n_connect n /\
+                 n_optimizer n' = n_optimizer n /\ n_objective n' = n_objective n /\
+                 n_skipacc n' = n_skipacc n /\ n_loopacc n' = n_loopacc n /\ n_input n' = n_input n.
+Proof. exact set_activation_spec. Qed.
+Print Assumptions C12_set_activation_changes_one_activation_only.
